@@ -70,6 +70,9 @@ type timestampOracle struct {
 	// saves a window computed from a view the other one has already changed.
 	// Lock order: updateMu before tsoMux.
 	updateMu sync.Mutex
+	// saveUncertain is set when a window save returned an error: the write may nevertheless
+	// have been committed, so lastSavedTime can be older than what etcd holds.
+	saveUncertain atomic.Value // stored as bool
 	suffix        int
 	dcLocation    string
 }
@@ -171,17 +174,38 @@ func (t *timestampOracle) loadTimestamp() (time.Time, error) {
 // otherwise, update it.
 func (t *timestampOracle) saveTimestamp(leadership *election.Leadership, ts time.Time) error {
 	key := t.getTimestampPath()
+	// After a failed save the stored window is unknown. Re-read it so that the stored window
+	// never goes backwards: if it already covers ts there is nothing to write.
+	if uncertain, ok := t.saveUncertain.Load().(bool); ok && uncertain {
+		value, err := etcdutil.GetValue(t.client, key)
+		if err != nil {
+			return err
+		}
+		if value != nil {
+			stored, err := typeutil.ParseTimestamp(value)
+			if err != nil {
+				return err
+			}
+			if typeutil.SubRealTimeByWallClock(stored, ts) >= 0 {
+				t.lastSavedTime.Store(stored)
+				t.saveUncertain.Store(false)
+				return nil
+			}
+		}
+	}
 	data := typeutil.Uint64ToBytes(uint64(ts.UnixNano()))
 	resp, err := leadership.LeaderTxn().
 		Then(clientv3.OpPut(key, string(data))).
 		Commit()
 	if err != nil {
+		t.saveUncertain.Store(true)
 		return errs.ErrEtcdKVPut.Wrap(err).GenWithStackByCause()
 	}
 	if !resp.Succeeded {
 		return errs.ErrEtcdTxnConflict.FastGenByArgs()
 	}
 	t.lastSavedTime.Store(ts)
+	t.saveUncertain.Store(false)
 	return nil
 }
 
